@@ -33,6 +33,10 @@ def gen_world(rng, i, tier):
             return w
     D = rng.pick(grammar.DSETS)
     C = rng.pick(grammar.CSETS)
+    if rng.chance(0.1):
+        # unusual but legal comment sets (white space, a structural character): whatever the parser makes of the file,
+        # queries must not change it
+        C = rng.pick(["\t", "#\t", " ;", "[", "\"", "k"])
     w = {"kind": "queries", "src": src, "D": D, "C": C, "cfg": gen.io_cfg(rng)}
     pairs = []
     if src in ("parsed", "merged"):
@@ -70,7 +74,7 @@ def gen_world(rng, i, tier):
         sets = []
         secs = [None, "A", "B b", "C", "_oNne_"]
         for _ in range(rng.randint(1, 20)):
-            sets.append([rng.pick(secs), rng.pick(["k1", "k2", "Name", "n", "flag"]), rng.pick(grammar.WORDS + ["", "multi\n  line", "\"q\"", "x#y", " lead", "trail ", "  both\t", "tab\tin", "line1\nline2 \n  line3", "L" * 1100, "seg " * 500, "Yes Please " * 800, "TRUE" + "x" * 8190, "No" * 4096, "0X" + "F" * 9000])])
+            sets.append([rng.pick(secs), rng.pick(["k1", "k2", "Name", "n", "flag"]), rng.pick(grammar.WORDS + ["", "multi\n  line", "\"q\"", "x#y", " lead", "trail ", "  both\t", "tab\tin", "line1\nline2 \n  line3", "L" * 1100, "seg " * 500, "Alpha\r\n  Beta\r\n  Gamma\r", "cr at the end\r", "Yes Please " * 800, "TRUE" + "x" * 8190, "No" * 4096, "0X" + "F" * 9000])])
         w["sets"] = sets
         w["ctor"] = rng.pick(["newKeyFile", "newIniFile", "newOpts"])
         for s, k, _ in sets:
@@ -200,6 +204,8 @@ def build_plans(world):
         return [{"op": "dump", "k": obj, "ext": True, "tag": tag}, {"op": "write", "k": obj, "dir": "$ROOT/out", "name": "snap.conf", "readback": True, "tag": tag + "w"}]
     # the very first observation takes the listings and values BEFORE it asks for tags and path; the regular
     # snapshots ask the other way round - both must agree
+    # before anything was asked: what the untouched object writes (the listings below use the getters themselves)
+    ops.append({"op": "write", "k": obj, "dir": "$ROOT/out", "name": "untouched.conf", "readback": True, "tag": "pre"})
     ops.append({"op": "dump", "k": obj, "ext": True, "order": 1, "tag": "dfirst"})
     ops += snapshot("d0")
     # what a write produces is a function of the object: the same bytes in a file that did not exist before
@@ -254,6 +260,8 @@ def check(world, plans, results):
     if canon(strip_volatile(bytag["dfirst"][0])) != d0:
         v.fail("mutated:dump", "two complete listings in a row differ (a tag/path query or a getter inside the listing changed the object): %s" % first_diff(bytag["dfirst"][0], bytag["d0"][0]))
     w0 = canon(strip_volatile(bytag["d0w"][0]))
+    if bytag.get("pre") and bytag["pre"][0].get("rc") == 0 and bytag["pre"][0].get("bytes") != bytag["d0w"][0].get("bytes"):
+        v.fail("mutated:first-listing", "the object wrote %d bytes before anything was asked and %d bytes after the first complete listing" % (len(bytag["pre"][0].get("bytes") or ""), len(bytag["d0w"][0].get("bytes") or "")))
     if bytag.get("fresh") and bytag["fresh"][0].get("bytes") != bytag["d0w"][0].get("bytes"):
         v.fail("written:target", "econf_writeFile over an existing longer file and into a new file produce different bytes (%d vs %d)" % (len(bytag["d0w"][0].get("bytes") or ""), len(bytag["fresh"][0].get("bytes") or "")))
     kinds = set()
